@@ -87,4 +87,6 @@ class SimpleMatcher(BaseMatcher):
         else:
             result = self.obs_noise_dist.logpdf(dist) + self.obs_noise_logint
         # print("logprob_obs: {} -> {:.5f} = {:.5f}".format(dist, result, math.exp(result)))
+        # The normalized density is 1 (log 0) at distance 0, rounding can make it slightly positive
+        result = min(result, 0.0)
         return result, {}
